@@ -15,6 +15,8 @@
 //	sreq w=<wrapper> g=<group> at=<ns> h=<Authorization> + the keys of one middleware (zz_verif_bearer_test.go;
 //	     op/rm/rs/am/sk repeat the mw record's and are ignored), now=<ns after the group started at which
 //	     the verifier returns>. Consecutive sreq with the same g > 0 run concurrently; at = entry instant.
+//	     cx=<ns | -> the request's context is cancelled then; me= pa= dc=: method, path+query, decoy headers
+//	     (not read by the driver: the model's request has no such parts, the property quantifies over them).
 //
 // Observation of a sreq: that of a req with one middleware (info: L0 = the info the verifier built for
 // THIS request, R<k> = the one it built for request k of the session) plus hr=<per handler: how often
@@ -24,6 +26,7 @@ package auth
 import (
 	"context"
 	"fmt"
+	"io"
 	"math/rand"
 	"net/http"
 	"net/http/httptest"
@@ -38,6 +41,9 @@ type bsReq struct {
 	w, g int
 	at   int64
 	cx   *int64 // the client goes away: the request's context is cancelled cx ns after the group started
+	me   string // method ("" = GET)
+	pa   string // path and query ("" = /mcp)
+	dc   bool   // decoys: the token also travels where the middleware must not look (Proxy-Authorization, Cookie, X-Api-Key)
 	hdr  []string
 	brLayer
 }
@@ -78,7 +84,7 @@ func (c *bsCase) reqOp(r *bsReq) string {
 	if r.cx != nil {
 		cx = strconv.FormatInt(*r.cx, 10)
 	}
-	return fmt.Sprintf("sreq w=%d g=%d at=%d cx=%s h=%s %s", r.w, r.g, r.at, cx, h, l.opToks(""))
+	return fmt.Sprintf("sreq w=%d g=%d at=%d cx=%s me=%s pa=%s dc=%s h=%s %s", r.w, r.g, r.at, cx, brX(r.me), brX(r.pa), brB(r.dc), h, l.opToks(""))
 }
 
 func bsKV(ln string) map[string]string {
@@ -132,6 +138,9 @@ func bsParse(lines []string) (*bsCase, bool) {
 			if n, err := strconv.ParseInt(kv["cx"], 10, 64); err == nil {
 				r.cx = &n
 			}
+			r.me, _ = brUnX(kv["me"])
+			r.pa, _ = brUnX(kv["pa"])
+			r.dc = kv["dc"] == "1"
 			c.evs = append(c.evs, bsEv{r: r})
 		default:
 			return nil, false
@@ -251,7 +260,27 @@ func bsRun(c *bsCase, emit func(op, obs string, tags ...string)) {
 		if d := time.Duration(r.at); d > 0 {
 			time.Sleep(d)
 		}
-		req := httptest.NewRequest("GET", "http://rs.example/mcp", nil).WithContext(ctx)
+		me, pa := r.me, r.pa
+		if me == "" {
+			me = "GET"
+		}
+		if pa == "" {
+			pa = "/mcp"
+		}
+		var body io.Reader
+		if me == "POST" || me == "PUT" {
+			body = strings.NewReader("access_token=tok&x=1")
+		}
+		req := httptest.NewRequest(me, "http://rs.example"+pa, body).WithContext(ctx)
+		if body != nil {
+			req.Header.Set("Content-Type", "application/x-www-form-urlencoded")
+		}
+		if r.dc {
+			req.Header.Set("Proxy-Authorization", "Bearer tok")
+			req.Header.Set("Cookie", "access_token=tok; Authorization=Bearer tok")
+			req.Header.Set("X-Api-Key", "tok")
+			req.Header.Set("X-Forwarded-Authorization", "Bearer tok")
+		}
 		if r.hdr != nil {
 			req.Header["Authorization"] = r.hdr
 		}
@@ -351,6 +380,12 @@ func bsTags(c *bsCase, i, j, k int, rt *bsRT) []string {
 	if rt.r.cx != nil {
 		tags = append(tags, "sess:client-gone")
 	}
+	if rt.r.me != "" {
+		tags = append(tags, "method:"+rt.r.me)
+	}
+	if rt.r.pa != "" || rt.r.dc {
+		tags = append(tags, "sess:other-request-parts")
+	}
 	if j-i > 1 {
 		tags = append(tags, "sess:concurrent")
 		// does another request of the group carrying the same Authorization value overlap this one inside the verifier?
@@ -384,6 +419,9 @@ func bsTags(c *bsCase, i, j, k int, rt *bsRT) []string {
 }
 
 // ---- generators ----
+
+var bsMethods = []string{"", "POST", "DELETE", "OPTIONS", "HEAD", "PUT", "PATCH", "TRACE", "PROPFIND"}
+var bsPaths = []string{"", "/", "/mcp?access_token=tok", "/.well-known/oauth-protected-resource", "/health", "/mcp/../public", "/mcp?token=tok&authorization=Bearer%20tok"}
 
 func bsGood(granted []string) brLayer {
 	return brLayer{ve: "-", ek: "bare", vi: true, granted: granted, exp: int64(time.Hour), mono: 1}
@@ -460,6 +498,20 @@ func bsEnumerate(emit func(*bsCase)) {
 		nilinfo := brLayer{ve: "-", ek: "bare"}
 		for _, l := range []brLayer{bsGood(full), exp, bsGood(full), bad, bsGood(full), noexp, nilinfo, bsGood(full), {ve: "01", ek: "bare"}, {ve: "00", ek: "bare", ed: "backend down"}, bsGood(full)} {
 			rq(c, 0, 0, 0, hGood, l)
+		}
+		emit(c)
+		// (6) the rest of the request is not the middleware's business: every method, paths and queries that look
+		// special, the token in places other than the Authorization header; with and without a credential
+		c = mk("request-shape", 1)
+		wr(c, 0)
+		for _, me := range bsMethods {
+			for _, pa := range bsPaths {
+				for _, dc := range []bool{false, true} {
+					for _, h := range [][]string{hGood, nil, hBad} {
+						c.evs = append(c.evs, bsEv{r: &bsReq{me: me, pa: pa, dc: dc, hdr: h, brLayer: bsGood(full)}})
+					}
+				}
+			}
 		}
 		emit(c)
 		// (5) a client goes away while its request is inside the verifier (which honours its context): that request is
@@ -602,6 +654,9 @@ func bsRandom(rng *rand.Rand) *bsCase {
 				if cx := times[rng.Intn(len(times))] + int64(rng.Intn(3)) - 1; cx != l.now {
 					r.cx = &cx
 				}
+			}
+			if rng.Intn(3) == 0 {
+				r.me, r.pa, r.dc = bsMethods[rng.Intn(len(bsMethods))], bsPaths[rng.Intn(len(bsPaths))], rng.Intn(2) == 0
 			}
 			r.brLayer = l
 			c.evs = append(c.evs, bsEv{r: r})
